@@ -302,3 +302,76 @@ def posit_sqrt_via_double(c):
     n = cfg_ints(c)[0]
     i, m = ints(c['impl']), ints(c['model'])
     return len(i) == 1 and len(m) == 1 and abs(i[0] - m[0]) < (1 << max(1, n - 50))
+
+
+def _ei(c):
+    """einteger case: block width, operand signs and magnitudes (hex strings)"""
+    w = cfg_ints(c)[0]
+    a = c['args'].split(',')
+    return w, a
+
+
+def _limbs(h, w):
+    return (len(h.lstrip('0')) * 4 + w - 1) // w if h.strip('0') else 0
+
+
+@pred
+def ei_sub_negative_minuend(c):
+    w, a = _ei(c)
+    return a[0] == '1' and a[2] == '0'
+
+
+@pred
+def ei_multi_limb_operand(c):
+    w, a = _ei(c)
+    return _limbs(a[3], w) >= 2 or _limbs(a[1], w) >= 2
+
+
+@pred
+def ei_any_negative(c):
+    w, a = _ei(c)
+    return a[0] == '1' or (len(a) > 2 and a[2] == '1')
+
+
+@pred
+def ei_negative_or_multi_limb_divisor(c):
+    w, a = _ei(c)
+    return a[0] == '1' or a[2] == '1' or _limbs(a[3], w) >= 2
+
+
+@pred
+def ei_noncanonical_operand(c):
+    """an operand produced by an earlier step of a chain with a zero most significant limb"""
+    w, a = _ei(c)
+    d = w // 4
+    return any(len(h) >= d and h[:d].strip('0') == '' and len(h) > d for h in (a[1], a[3] if len(a) > 3 else '1'))
+
+
+@pred
+def prints_negative_zero(c):
+    return c['impl'] == '2d,30'
+
+
+@pred
+def erational_negative_zero(c):
+    return c['impl'].startswith('31,20,30,20')
+
+
+@pred
+def p2i_adapter_defects(c):
+    """convert_p2i: negative posit with scale 0 gives +1; an integer narrower than the posit significand loses the hidden bit"""
+    cfg = cfg_ints(c)
+    if len(cfg) != 3:
+        return False
+    n, es, ni = cfg
+    fbits = 0 if es + 2 >= n else n - 3 - es
+    i, m = ints(c['impl']), ints(c['model'])
+    if len(i) != 1 or len(m) != 1:
+        return False
+    neg_scale0 = i[0] == 1 and m[0] == (1 << ni) - 1
+    return neg_scale0 or ni < fbits + 1
+
+
+@pred
+def i2p_adapter_out_of_range(c):
+    return c['impl'].startswith('!St12out_of_range')
